@@ -88,6 +88,11 @@ BOUNDED_STANDINS = {
                       'up to the bound over a 17-symbol alphabet, real parser+evaluator against a reference evaluator '
                       'written from the precedence table of the statement',
                  why='list-mutating recursive descent over regex-lexed tokens is outside the VC generator\'s subset')],
+    'C16': [dict(name='listing-byte-rows', script='pyvc/native/bounded_c16.py', quick=['64'], thorough=['400'],
+                 what='ListingPrettyPrinter._generate_bytecode_line_string: every length up to the bound x row widths 1..8, '
+                      'real helper, rows decoded back to the bytes',
+                 why='string building of unbounded length (concatenation, len tests, padding) is outside the subset',
+                 bound='max bytes per line')],
 }
 
 
@@ -106,7 +111,7 @@ def run_bounded(pid, tier):
             info = json.load(open(res_file))
         except Exception:
             pass
-        out.append(dict(name=b['name'], what=b['what'], why=b['why'], bound=f'max tokens {b[tier][0]}', rc=p.returncode,
+        out.append(dict(name=b['name'], what=b['what'], why=b['why'], bound=f'{b.get("bound", "max tokens")} {b[tier][0]}', rc=p.returncode,
                         cases=info.get('cases'), nontrivial=info.get('wellformed_with_3_or_more_tokens'),
                         disagreements=info.get('disagreements', []), result_file=res_file, time=time.time() - t0,
                         stdout=p.stdout[-2000:], stderr=p.stderr[-2000:]))
